@@ -185,6 +185,8 @@ fn case(f: &mut impl std::io::Write, d: &[u8]) {
         ("visit_seq_hint", Entry::Seq(Some(d.len()))),
         ("visit_seq_lowhint", Entry::Seq(Some(d.len() / 2))),
         ("visit_seq_highhint", Entry::Seq(Some(d.len() * 2 + 1))),
+        ("visit_seq_hugehint", Entry::Seq(Some(usize::MAX))),
+        ("visit_seq_hugehint2", Entry::Seq(Some(isize::MAX as usize))),
     ];
     if utf8 {
         entries.push(("visit_str", Entry::Str));
@@ -217,11 +219,15 @@ fn case(f: &mut impl std::io::Write, d: &[u8]) {
             f.write_all(out.as_bytes()).unwrap();
         }
         for (name, e) in &entries {
-            let r: Result<Vec<u8>, Err> = if ty == "Bytes" {
-                Bytes::deserialize(De { e: *e, d }).map(|b| b.to_vec())
-            } else {
-                BytesMut::deserialize(De { e: *e, d }).map(|b| b.to_vec())
-            };
+            // (a panic of the visitor -- e.g. a capacity overflow from a trusted size hint -- is a failed round trip)
+            let r: Result<Vec<u8>, Err> = std::panic::catch_unwind(|| {
+                if ty == "Bytes" {
+                    Bytes::deserialize(De { e: *e, d }).map(|b| b.to_vec())
+                } else {
+                    BytesMut::deserialize(De { e: *e, d }).map(|b| b.to_vec())
+                }
+            })
+            .unwrap_or_else(|_| Result::Err(<Err as de::Error>::custom("panic")));
             out.clear();
             let _ = write!(out, "{{\"k\":\"serde\",\"ty\":\"{}\",\"entry\":\"{}\",\"ok\":{},\"d\":", ty, name, r.is_ok());
             jb(&mut out, d);
